@@ -3,7 +3,8 @@ EXTENDS Reader
 
 C(v, dp, ip, ix) == [ver |-> v, dpad |-> dp, ipad |-> ip, idx |-> ix, full |-> FALSE, npad |-> 0]
 NC(c) == [hx |-> 1] @@ c        \* the same container around a payload whose header is not canonically encoded
-StdConts == { C(1, 0, 0, "none"), C(2, 0, 0, "mh"), C(2, 1, 7, "sorted"), C(2, 1413, 0, "none"), NC(C(1, 0, 0, "none")), NC(C(2, 1, 7, "sorted")) }
+StdConts == { C(1, 0, 0, "none"), C(2, 0, 0, "mh"), C(2, 1, 7, "sorted"), C(2, 1413, 0, "none"), NC(C(1, 0, 0, "none")), NC(C(2, 1, 7, "sorted")),
+              C(2, 32868, 0, "none") }      \* a data padding longer than 32 KiB and not a multiple of it: skipped by reading on a plain stream
 
 QuickIds   == {"b1", "b3", "b5", "b10", "b12", "b13", "b14", "b19"}
 QuickRoots == { <<>>, <<"b1">>, <<"b3", "b4">>, <<"b10">>, <<"b22">> }   \* b10/b22: roots whose CBOR byte-string head is 1 / 3 bytes
